@@ -397,7 +397,7 @@ def full_routes(cx):
     _no_nested_pools()
     rng = cx.rng
     nts = [1, 2, 3, 4, 5] if cx.quick else [1, 2, 3, 4, 5, 6]
-    reps = 8 if cx.quick else 80
+    reps = 8 if cx.quick else 60
     grid = [(nt, hy, dt, ei, r) for nt in nts for hy in (False, True) for dt in DTYPES + ["mixed"] for ei in range(5)
             for r in range(reps)]
     for i, (nt, hy, dt, ei, r) in enumerate(grid):
@@ -630,7 +630,7 @@ def partial(cx):
     _no_nested_pools()
     rng = cx.rng
     nts = [2, 3, 4, 5] if cx.quick else [2, 3, 4, 5, 6]
-    reps = 8 if cx.quick else 80
+    reps = 8 if cx.quick else 60
     grid = [(nt, hy, dt, ei, r) for nt in nts for hy in (False, True) for dt in DTYPES for ei in range(5)
             for r in range(reps)]
     for i, (nt, hy, dt, ei, r) in enumerate(grid):
@@ -822,7 +822,7 @@ def dense_norm(cx):
     _no_nested_pools()
     rng = cx.rng
     nts = [1, 2, 3, 4, 5] if cx.quick else [1, 2, 3, 4, 5, 6]
-    reps = 8 if cx.quick else 80
+    reps = 8 if cx.quick else 60
     grid = [(nt, hy, dt, ei, r) for nt in nts for hy in (False, True) for dt in DTYPES for ei in range(5)
             for r in range(reps)]
     for i, (nt, hy, dt, ei, r) in enumerate(grid):
@@ -1062,7 +1062,7 @@ def linop(cx):
     _no_nested_pools()
     rng = cx.rng
     nts = [1, 2, 3, 4] if cx.quick else [1, 2, 3, 4, 5]
-    reps = 6 if cx.quick else 60
+    reps = 6 if cx.quick else 45
     grid = [(nt, hy, dt, ei, r) for nt in nts for hy in (False, True) for dt in DTYPES for ei in range(5)
             for r in range(reps)]
     vnames = list(VIEWS)
@@ -1257,7 +1257,7 @@ def structured(cx):
     _no_nested_pools()
     rng = cx.rng
     Ls = [1, 2, 3, 4, 5] if cx.quick else [1, 2, 3, 4, 5, 6]
-    reps = 8 if cx.quick else 80
+    reps = 8 if cx.quick else 50
     grid = [(L, cyc, dt, ei, r) for L in Ls for cyc in (False, True) for dt in DTYPES for ei in range(5)
             for r in range(reps)]
     for i, (L, cyc, dt, ei, r) in enumerate(grid):
